@@ -43,6 +43,7 @@ pub struct GenModel {
     finish_at: std::sync::Mutex<std::collections::BTreeSet<usize>>,
     mixed_sizes: AtomicU64,
     checked_last: AtomicU64,
+    monitor: std::sync::Arc<HangMonitor>,
 }
 
 /// Replay a history on a fresh real generator and check every clause of the statement.
@@ -128,6 +129,7 @@ impl Model for GenModel {
         if sizes.len() >= 2 {
             self.mixed_sizes.fetch_add(1, Ordering::Relaxed);
         }
+        let _watch = self.monitor.enter(|| format!("history {:?}", hist));
         let bad = replay_history(&self.engine, &self.labels, &self.oneshot, &hist).err();
         Some(HState { finished: a == Op::Finish, hist, bad })
     }
@@ -167,20 +169,40 @@ fn tiny_cases(tier: Tier) -> Vec<Case> {
         (GenCfg { nstate: 2, fperiod: 4, dur_scale: 0.5, wset: 2, ..GenCfg::default() }, 2),
         (GenCfg { nstate: 1, fperiod: 4, dur_scale: 1.8, stage: 1, order: 5, log_gain: true, ..GenCfg::default() }, 2),
     ] {
-        let engine = engine_from_bytes(&cfg.bytes()).expect("generated voice");
+        let mut engine = engine_from_bytes(&cfg.bytes()).expect("generated voice");
+        // non-default conditions on half of the cases: the postfilter (beta > 0) makes the coefficients carried
+        // from frame to frame differ from the raw spectrum; volume and half tone exercise the remaining plumbing
+        let cond = if out.len() % 2 == 1 { "beta=0.4,volume=-6,half_tone=2" } else { "default" };
+        if out.len() % 2 == 1 {
+            engine.condition.set_beta(0.4);
+            engine.condition.set_volume(-6.0);
+            engine.condition.set_additional_half_tone(2.0);
+        }
         let labels: Vec<String> = corpus[41..41 + nl].to_vec();
-        out.push(Case { name: format!("{} labels={}", cfg.describe(), nl), engine, labels });
+        out.push(Case { name: format!("{} labels={} cond={}", cfg.describe(), nl, cond), engine, labels });
+    }
+    // the same voices with the other condition (so that every voice is seen with the postfilter on and off)
+    for (cfg, nl) in [
+        (GenCfg { nstate: 1, fperiod: 4, wset: 1, ..GenCfg::default() }, 2usize),
+        (GenCfg { nstate: 1, fperiod: 4, ns: 2, stage: 2, order: 4, wset: 0, ..GenCfg::default() }, 2),
+    ] {
+        let mut engine = engine_from_bytes(&cfg.bytes()).expect("generated voice");
+        engine.condition.set_beta(0.3);
+        out.push(Case { name: format!("{} labels={} cond=beta=0.3", cfg.describe(), nl), engine, labels: corpus[41..41 + nl].to_vec() });
     }
     if tier == Tier::Thorough {
         let cfg = GenCfg { nstate: 3, fperiod: 2, ns: 2, gv: true, ..GenCfg::default() };
-        out.push(Case { name: format!("{} labels=1", cfg.describe()), engine: engine_from_bytes(&cfg.bytes()).unwrap(), labels: corpus[41..42].to_vec() });
+        let mut engine = engine_from_bytes(&cfg.bytes()).unwrap();
+        engine.condition.set_beta(0.5);
+        out.push(Case { name: format!("{} labels=1 cond=beta=0.5", cfg.describe()), engine, labels: corpus[41..42].to_vec() });
     }
     out
 }
 
 pub fn run(tier: Tier) -> i32 {
-    let rep = Report::new("C02", tier, "model_checking");
-    rep.set_rule("HIST (stateright BFS): all call histories over {generate_step with buffer fp, fp+1, 2fp, 3fp; synthesized_frames; generate_all (terminal)} up to depth N+3 on real generators of N = 0..5 frames (tiny generated voices, both filter families, 2 and 3 streams, frame periods 1 and 4); every transition rebuilds a fresh generator and replays the history; no state merging; plus on V0: constant and cycling buffer sizes to exhaustion and generate_all after exactly k steps for every k; non-trivial = history contains at least one step or finish");
+    let rep: &'static Report = Box::leak(Box::new(Report::new("C02", tier, "model_checking")));
+    let monitor = std::sync::Arc::new(HangMonitor::start(rep, "C02 generator history"));
+    rep.set_rule("HIST (stateright BFS): all call histories over {generate_step with buffer fp, fp+1, 2fp, 3fp; synthesized_frames; generate_all (terminal)} up to depth N+3 on real generators of N = 0..5 frames (tiny generated voices, both filter families, 2 and 3 streams, frame periods 1 and 4); every transition rebuilds a fresh generator and replays the history; no state merging; half of the engines with the postfilter on (beta 0.3-0.5), volume and half tone set; plus on V0 (beta 0.3): constant and cycling buffer sizes to exhaustion and generate_all after exactly k steps for every k; non-trivial = history contains at least one step or finish");
     rep.assume("buffers no larger than 3 x fperiod; what a step does to buffer samples beyond the first fperiod is not constrained");
     let mut total_states = 0u64;
     for case in tiny_cases(tier) {
@@ -209,6 +231,7 @@ pub fn run(tier: Tier) -> i32 {
                 finish_at: Default::default(),
                 mixed_sizes: Default::default(),
                 checked_last: Default::default(),
+                monitor: monitor.clone(),
             };
             let checker = model.checker().threads(threads).target_max_depth(depth + 2).spawn_bfs().join();
             counts.push(checker.unique_state_count());
@@ -252,7 +275,8 @@ pub fn run(tier: Tier) -> i32 {
     }
     // V0 structured families on a 3-label utterance
     let corpus = labels::corpus();
-    let v0 = engine_pk(&[0]);
+    let mut v0 = engine_pk(&[0]);
+    v0.condition.set_beta(0.3);
     let utt: Vec<String> = corpus[40..43].to_vec();
     match synth(&v0, &utt) {
         Err(e) => rep.violation("oneshot", format!("V0 one-shot fails: {}", e), json!({"voice": "V0"})),
@@ -267,13 +291,13 @@ pub fn run(tier: Tier) -> i32 {
             }
             let cyc = [0usize, 1, fp, 2 * fp];
             hists.push((0..n + 2).map(|i| Op::Step(cyc[i % 4])).collect());
-            let kstride = tier.pick(7usize, 1usize);
+            let kstride = tier.pick(3usize, 1usize);
             for k in (0..=n).step_by(kstride).chain([n, n.saturating_sub(1)]) {
                 let mut h: Vec<Op> = (0..k).map(|i| Op::Step(cyc[(i + k) % 4])).collect();
                 h.push(Op::Finish);
                 hists.push(h);
             }
-            par_for(hists.len(), 1, |i| {
+            rep.par_for(hists.len(), 1, "C02 part 1", |i| {
                 rep.eval(1);
                 rep.traces.fetch_add(1, Ordering::Relaxed);
                 if let Err(what) = replay_history(&v0, &utt, &oneshot, &hists[i]) {
@@ -287,7 +311,7 @@ pub fn run(tier: Tier) -> i32 {
         }
     }
     rep.guard(total_states > 500, "too few states");
-    rep.finish()
+    rep.finish_ref()
 }
 
 pub fn replay(v: &Value) -> i32 {
@@ -311,7 +335,11 @@ pub fn replay(v: &Value) -> i32 {
         .collect();
     let labels: Vec<String> = v["labels"].as_array().cloned().unwrap_or_default().iter().filter_map(|x| x.as_str().map(|s| s.to_string())).collect();
     let engine = if name == "V0" {
-        Some(engine_pk(&[0]))
+        Some({
+            let mut e = engine_pk(&[0]);
+            e.condition.set_beta(0.3);
+            e
+        })
     } else {
         tiny_cases(Tier::Thorough).into_iter().find(|c| c.name == name).map(|c| c.engine)
     };
